@@ -636,7 +636,9 @@ def Entry.fn : Entry → Fn
   | .plain f => f
   | .matcher _ _ _ _ _ f => f
 
-/-- calling a callable: a one-shot closure frees its responder, then calls what it wraps -/
+/-- calling a callable: a one-shot closure frees its responder, then calls what it wraps.  A user
+    function that raises is an invocation like any other: the dispatchers call every responder
+    function in its own try/except (repair D-C18-5), and the one-shot closure frees BEFORE calling. -/
 def callFn (s : St) : Fn → St × List Nat
   | .user fid => (s, [fid])
   | .oneShot _ rid inner => callFn (free s rid) inner
